@@ -65,6 +65,7 @@ type Contract struct {
 	Modifies   []Clause
 	NoPanic    bool
 	MayPanic   bool // run-time panics are not excluded: postconditions are about normal returns only
+	Rethrows   bool // a deferred panic handler: whenever its recover() yields a non-nil value it panics again (proved)
 	Panics     []PanicSpec
 	PanicsWith []Clause // predicate over `panicvalue` that every panic leaving the function satisfies
 	// PanicsOnly: function never returns normally under this condition
@@ -131,7 +132,7 @@ var reLemma = regexp.MustCompile(`^lemma\s+([A-Za-z_][A-Za-z0-9_]*)\s*\((.*)\)\s
 var rePred = regexp.MustCompile(`^(?:pred|fun)\s+([A-Za-z_][A-Za-z0-9_]*)\s*\((.*?)\)\s*(?:[A-Za-z_.\[\]*]+\s*)?:=\s*(.*)$`)
 
 func clauseKeyword(s string) bool {
-	for _, k := range []string{"property ", "requires ", "ensures ", "defines ", "modifies ", "no_panic", "may_panic", "panics_with ", "panics ", "decreases ", "loop#", "at ", "let ", "ghost ", "trusted", "inline", "noinline", "pure", "witness ", "assumes ", "dispatch ", "callback ", "reads_init "} {
+	for _, k := range []string{"property ", "requires ", "ensures ", "defines ", "modifies ", "no_panic", "may_panic", "rethrows", "panics_with ", "panics ", "decreases ", "loop#", "at ", "let ", "ghost ", "trusted", "inline", "noinline", "pure", "witness ", "assumes ", "dispatch ", "callback ", "reads_init "} {
 		if strings.HasPrefix(s, k) {
 			return true
 		}
@@ -339,6 +340,8 @@ func (cs *ContractSet) parseFile(pkgPath, file string) error {
 			}
 		case t == "no_panic":
 			cur.NoPanic = true
+		case t == "rethrows":
+			cur.Rethrows = true
 		case t == "may_panic":
 			cur.MayPanic = true
 			cur.Assumes = append(cur.Assumes, "partial correctness: run-time panics (nil dereference, index, slice bounds, conversion, division) are not excluded here; the postconditions are proved for every normal return")
